@@ -279,7 +279,7 @@ class World:
         import frappy.protocol.dispatcher as fd
         self.fc, self.fr, self.fd = fc, fr, fd
         self.layout = layout
-        self.sched = ds.Scheduler(strategy or Quiet(), max_steps=max_steps)
+        self.sched = ds.Scheduler(strategy or Quiet(), max_steps=max_steps, eps=1e-5)
         self.quiet = Quiet()
         self.ups = {}
         self.order = list(layout['nodes'])
@@ -413,6 +413,9 @@ class World:
             return ('error_' + action, spec, [e.name, str(e), {}])
         except Exception as e:  # noqa
             return ('error_' + action, spec, ['InternalError', repr(e), {}])
+        if not r:
+            # the interface layer logs 'empty result', fails on result[0] and closes the connection
+            return ('error_' + action, spec, ['InternalError', 'no reply (handler returned %r)' % (r,), {}])
         return r
 
     # --- one abstract action
@@ -480,7 +483,8 @@ class World:
         out = {'a': str(action), 'spec': str(spec), 'v': 0, 'e': ''}
         try:
             if action.startswith('error'):
-                out['e'] = CLSERR.get(data[0], '?%s:%s' % (data[0], str(data[1])[:60]))
+                out['e'] = CLSERR.get(data[0], '?%s' % (data[0],))
+                out['text'] = __import__('re').sub(r'0x[0-9a-f]+|\d+', '#', str(data[1]))[:70]
             elif action == 'done':
                 out['v'] = data[0] if isinstance(data[0], int) else BADVAL
             else:
@@ -509,10 +513,99 @@ class World:
                 'fw': str(data.get('firmware', ''))[:12]}
 
 
+REPAIRS = ('modules-attr', 'deactivate-noreply', 'update-not-exported', 'shutdown-flag', 'snapshot-to-all',
+           'startdown-nodes', 'describe-mutates', 'collision-owner', 'unknown-module')
+
+
 def repaired(fr, repairs):
-    """subclass of the real Router with the proposed minimal patches of the named findings applied"""
+    """subclass of the real Router with the proposed minimal patches of the named (open) findings applied as
+    wrappers around the original methods, so that everything behind a finding is still bound to the real code"""
+    import copy
+    import threading
+    from frappy.errors import NoSuchModuleError
+
+    class C(fr.SecopClient):
+        def updateEvent(self, module, parameter, value, timestamp, readerror):
+            if 'collision-owner' in repairs and self.dispatcher.node_by_module.get(module, self) is not self:
+                return None      # module name owned by another node
+            if 'update-not-exported' in repairs and not readerror:
+                value = self.modules[module]['parameters'][parameter]['datatype'].export_value(value)
+            return fr.SecopClient.updateEvent(self, module, parameter, value, timestamp, readerror)
+
+        def descriptiveDataChange(self, module, data):
+            ev = self._shutdown
+            try:
+                return fr.SecopClient.descriptiveDataChange(self, module, data)
+            finally:
+                if 'shutdown-flag' in repairs and self._shutdown is True:
+                    self._shutdown = ev
+                    ev.set()
+
     class R(fr.Router):
-        pass
+        def __init__(self, *args):
+            saved = fr.SecopClient
+            fr.SecopClient = C
+            try:
+                fr.Router.__init__(self, *args)
+            finally:
+                fr.SecopClient = saved
+            if 'startdown-nodes' in repairs:
+                self.nodes = [n for n in self.nodes if n.online]
+            if 'collision-owner' in repairs:
+                self.node_by_module = {}
+                for node in self.nodes:
+                    for module in node.modules:
+                        self.node_by_module.setdefault(module, node)
+
+        def handle_activate(self, conn, specifier, data):
+            if 'snapshot-to-all' not in repairs:
+                return fr.Router.handle_activate(self, conn, specifier, data)
+            me = threading.get_ident()
+            orig = self.broadcast_event
+
+            def only_me(msg, reallyall=False):
+                if threading.get_ident() == me:
+                    return conn.send_reply(msg)
+                return orig(msg, reallyall)
+            self.broadcast_event = only_me
+            try:
+                return fr.Router.handle_activate(self, conn, specifier, data)
+            finally:
+                del self.broadcast_event
+
+        def handle_deactivate(self, conn, specifier, data):
+            r = fr.Router.handle_deactivate(self, conn, specifier, data)
+            if 'deactivate-noreply' in repairs and not r:
+                return ('inactive', specifier or None, None)
+            return r
+
+        def handle_describe(self, conn, specifier, data):
+            if 'describe-mutates' not in repairs:
+                return fr.Router.handle_describe(self, conn, specifier, data)
+            saved = [copy.deepcopy(n.descriptive_data) for n in self.nodes]
+            try:
+                return fr.Router.handle_describe(self, conn, specifier, data)
+            finally:
+                for n, d in zip(self.nodes, saved):
+                    n.descriptive_data = d
+
+        def _known(self, specifier):
+            module = specifier.split(':')[0]
+            if 'unknown-module' in repairs and module not in self._modules and module not in self.node_by_module:
+                raise NoSuchModuleError('Module %r does not exist' % module)
+
+        def handle_read(self, conn, specifier, data):
+            self._known(specifier)
+            return fr.Router.handle_read(self, conn, specifier, data)
+
+        def handle_change(self, conn, specifier, data):
+            self._known(specifier)
+            return fr.Router.handle_change(self, conn, specifier, data)
+
+        def handle_do(self, conn, specifier, data):
+            self._known(specifier)
+            return fr.Router.handle_do(self, conn, specifier, data)
+
     if 'modules-attr' in repairs:
         R._modules = property(lambda self: self.secnode.modules)
     return R
@@ -533,7 +626,7 @@ def run_world(layout, driver, strategy=None, repairs=()):
 
     with w.patch:
         s.spawn('driver', main)
-        s.stop_when = lambda: box.get('done')
+        s.stop_when = lambda: box.get('done') or s.threads['driver'].finished
         s.run()
     if 'done' not in box:
         t = s.threads['driver']
@@ -542,3 +635,239 @@ def run_world(layout, driver, strategy=None, repairs=()):
                         'blocked': s.blocked_summary()}
     w.box = box
     return w, box.get('res')
+
+
+# ------------------------------------------------------------------ spec -> code: replay of TLC behaviours
+
+LAYOUTS = {
+    'AB': {'nodes': {'A': ['ma'], 'B': ['mb']}, 'conns': ['c1', 'c2']},
+    'A': {'nodes': {'A': ['ma']}, 'conns': ['c1', 'c2']},
+    'A2': {'nodes': {'A': ['ma', 'mx']}, 'conns': ['c1', 'c2']},
+    'Coll': {'nodes': {'A': ['ma', 'mx'], 'B': ['mx']}, 'conns': ['c1', 'c2']},
+    'ABdown': {'nodes': {'A': ['ma'], 'B': ['mb']}, 'conns': ['c1', 'c2'], 'startdown': ['B']},
+}
+ORDER = ('excs', 'init', 'rep', 'routed', 'desc', 'restart', 'st', 'active', 'cache', 'out', 'dt')
+
+
+def gamma(a):
+    """input of a TLC step -> action of the world"""
+    act = a['act']
+    if act == 'upd':
+        en = a['en']
+        return {'act': 'upd', 'n': a['n'], 'm': a['m'], 'p': a['p'], 'v': en['v'] if en['k'] == 'v' else None,
+                'e': en['e'] if en['k'] == 'e' else None}
+    if act == 'req':
+        g = {'act': 'req', 'c': a['c'], 'k': a['k'], 'm': a['m'], 'p': a['p'], 'arg': a['arg']}
+        if a['ok']:
+            g['rv'] = a['x']
+        else:
+            g['re'] = a['ec']
+        return g
+    return {k: v for k, v in a.items() if k != 'exp'}
+
+
+def inputs(beh):
+    return [{k: v for k, v in s.items() if k != 'exp'} for s in beh]
+
+
+def compare(w, a, exp, obs):
+    """expected observation (printed by TLC) against the projected observation -> {field: how} of differences"""
+    diff = {}
+    if obs['excs']:
+        diff['excs'] = obs['excs'][0][:60]
+    if exp['st'] != obs['st']:
+        diff['st'] = ','.join('%s:%s/%s' % (n, exp['st'][n], obs['st'].get(n)) for n in sorted(exp['st'])
+                              if exp['st'][n] != obs['st'].get(n))
+    if sorted(exp['active']) != obs['active']:
+        diff['active'] = 'expected %s' % sorted(exp['active'])
+    if exp['restart'] != (obs['restarts'] > 0) or obs['restarts'] > 1:
+        diff['restart'] = 'requested %dx, expected %s' % (obs['restarts'], exp['restart'])
+    bad = [c for c in exp['cache'] if obs['cache'].get('%s.%s:%s' % (c['n'], c['m'], c['p'])) != c['en']]
+    if bad or obs.get('cache_extra'):
+        c = bad[0] if bad else None
+        diff['cache'] = 'extra keys' if not bad else '%s:%s expected %s got %s' % (
+            c['p'], c['en']['k'], _en(c['en']), _en(obs['cache'].get('%s.%s:%s' % (c['n'], c['m'], c['p']))))
+    act = a['act']
+    if act == 'req':
+        er, r = exp['rep'], obs['rep']
+        if er['a'] == 'error':
+            ok = r['a'] == 'error_' + a['k'] and r['e'] == er['e']
+        else:
+            ok = r['a'] == er['a'] and r['v'] == er['v'] and not r['e']
+        if not ok or r['spec'] != '%s:%s' % (a['m'], a['p']):
+            diff['rep'] = ('%s %s' % (r['e'] or '%s %s' % (r['a'], r['v']), r.get('text', ''))).strip()
+        if obs['dt'] > 100:
+            diff['dt'] = 'request took %d ticks' % obs['dt']
+    elif act in ('act', 'deact'):
+        if obs['rep'] != exp['rep']['a']:
+            diff['rep'] = str(obs['rep'])[:80]
+    elif act == 'desc':
+        d, e = obs['desc'], exp['desc']
+        if d['err']:
+            diff['rep'] = d['err']
+        else:
+            mods = {m: o for m, o in e['mods']}
+            got = {m: x['owner'] for m, x in d['mods'].items()}
+            how = []
+            if d['eq'] != 'eq_' + e['eq']:
+                how.append('equipment_id')
+            if d['parts'] != e['parts']:
+                how.append('node descriptions %s' % d['parts'])
+            if got != mods:
+                how.append('modules %s' % sorted(got.items()))
+            elif any(x['ver'] != 0 or x['acc'] != sorted(list(PARAMS) + ['go']) for x in d['mods'].values()):
+                how.append('module description')
+            if how:
+                diff['desc'] = '; '.join(how)
+    routed = sorted([r['n'], r['k'], '%s:%s' % (r['m'], r['p']), r['arg']] for r in exp['routed'])
+    if routed != obs['routed']:
+        diff['routed'] = 'to %s expected %s' % (sorted({r[0] for r in obs['routed']}), sorted({r[0] for r in routed}))
+    # update streams, per connection and per parameter name
+    want = {}
+    for o in exp['out']:
+        if o['seq']:
+            want[o['c'], o['m'], o['p']] = o['seq']
+    opt = {(o['c'], o['m'], o['p']) for o in exp['opt']}
+    got = {}
+    for c, msgs in obs['out'].items():
+        for m in msgs:
+            if m['a'] != 'update':
+                diff.setdefault('out', 'foreign message %s to %s' % (m['a'], c))
+            else:
+                got.setdefault((c, m['m'], m['p']), []).append(m['en'])
+    for k in sorted(set(want) | set(got)):
+        e, g = want.get(k, []), got.get(k, [])
+        if e != g and not (k in opt and not g):
+            who = 'requester' if k[0] == a.get('c') else 'other'
+            if len(g) == len(e):
+                how = 'wrong entry %s for %s' % (_en([x for x, y in zip(g, e) if x != y][0]), k[2])
+            else:
+                how = '%s %d instead of %d' % (k[2] if act != 'act' else who, len(g), len(e))
+            diff.setdefault('out', how)
+    return diff
+
+
+def _en(en):
+    if not en:
+        return 'nothing'
+    return {'u': 'undefined', 'v': 'value %s' % ('not in wire form' if en['v'] == BADVAL else en['v']),
+            'e': 'error %s%s' % (en['e'], '' if en['v'] else '(upstream stamp)')}[en['k']]
+
+
+def replay_one(args):
+    """replay one behaviour; returns None or (step index, diff, observation)"""
+    layout, beh, repairs = args
+
+    def driver(w):
+        if w.router is None:
+            return (0, {'init': w.init_error}, {})
+        for i, st in enumerate(beh):
+            a = gamma(st)
+            obs = w.step(a)
+            diff = compare(w, st, st['exp'], obs)
+            if diff:
+                return (i, diff, obs)
+        return None
+    w, res = run_world(LAYOUTS[layout], driver, repairs=repairs)
+    if 'stuck' in w.box:
+        return (-1, {'excs': 'harness stuck: %s' % json.dumps(w.box['stuck'])[:300]}, {})
+    return res
+
+
+def signature(beh, i, diff):
+    st = beh[i] if 0 <= i < len(beh) else {'act': 'init'}
+    clause = [f for f in ORDER if f in diff][0]
+    act = st['act'] + (':' + st['k'] if st['act'] == 'req' else '')
+    sig = {'module': 'Router', 'action': act, 'clause': clause, 'how': diff[clause]}
+    if clause == 'restart':
+        sig['after_describe'] = any(s['act'] == 'desc' for s in beh[:i])
+    return sig
+
+
+def replay_all(chk, jobs, label):
+    """jobs: list of (layout, behaviour).  Pristine pass first; the behaviours that deviate through an OPEN known
+    finding are replayed again with the proposed patch of that finding applied (wrappers), until nothing new shows.
+    Behaviours with identical inputs are alternatives of a nondeterministic step: one of them must match."""
+    groups = {}
+    for j, (layout, beh) in enumerate(jobs):
+        groups.setdefault((layout, json.dumps(inputs(beh), sort_keys=True)), []).append(j)
+    todo = list(range(len(jobs)))
+    applied = set()
+    passed = set()
+    rounds = 0
+    while todo and rounds < 6:
+        rounds += 1
+        rep = tuple(sorted(applied))
+        res = pool_map(replay_one, [(jobs[j][0], jobs[j][1], rep) for j in todo])
+        chk.impl_traces += len(todo)
+        failed = {}
+        for j, r in zip(todo, res):
+            if r is None:
+                passed.add(j)
+            else:
+                failed[j] = r
+        new = set()
+        again = []
+        for key, members in groups.items():
+            if any(j in passed for j in members) or not any(j in failed for j in members):
+                continue
+            # the alternative that got furthest speaks for the group
+            j = max((j for j in members if j in failed), key=lambda x: failed[x][0])
+            i, diff, obs = failed[j]
+            layout, beh = jobs[j]
+            sig = signature(beh, i, diff)
+            sig['layout'] = layout
+            e = chk.known.match(chk.prop, sig)
+            detail = {'layout': layout, 'behaviour': beh[:i + 1], 'inputs': inputs(beh), 'step': i, 'diff': diff,
+                      'observed': obs, 'expected': beh[i]['exp'] if 0 <= i < len(beh) else None,
+                      'repairs': list(rep)}
+            if e and e['id'][4:] in applied:
+                sig['how'] = 'PATCH OF %s DOES NOT HELP: %s' % (e['id'], sig['how'])
+                e = None
+            chk.violation(sig, detail)
+            if e:
+                if e['id'][4:] in REPAIRS:
+                    new.add(e['id'][4:])
+                    again += [m for m in members if m in failed]
+        if not new:
+            break
+        applied |= new
+        todo = sorted(set(again))
+    chk.notes.setdefault('replay', {})[label] = {'behaviours': len(jobs), 'input_sequences': len(groups),
+                                                 'rounds': rounds, 'patched_findings': sorted(applied)}
+    return applied
+
+
+GEN = {'quick': [('AB', 'Gen_Router_quick.cfg', {})],
+       'thorough': [('AB', 'Gen_Router_thorough.cfg', {})]}
+
+
+def run(chk):
+    quick = chk.tier == 'quick'
+    chk.rule = 'x'
+    for m in ('Router', 'Gen_Router'):
+        sany(m)
+    chk.add_tlc(model_check('Router', 'MC_Router_quick.cfg' if quick else 'MC_Router_thorough.cfg', timeout=900))
+    jobs = []
+    for layout, cfg, kw in GEN[chk.tier]:
+        r, behs = emit_behaviours('Gen_Router', cfg, maximal_only=False, timeout=600, **kw)
+        chk.add_tlc(r)
+        jobs += [(layout, b) for b in behs]
+    for layout, beh in jobs:
+        chk.case(json.dumps([layout, inputs(beh)], sort_keys=True), len(beh) > 1)
+    replay_all(chk, jobs, 'exhaustive')
+
+
+def replay(chk, rep):
+    d = rep['detail']
+    beh = d['behaviour']
+
+    def driver(w):
+        for st in beh:
+            obs = w.step(gamma(st))
+            print(json.dumps({k: v for k, v in st.items() if k != 'exp'}))
+            print('   observed:', json.dumps(obs, sort_keys=True))
+            print('   expected:', json.dumps(st['exp'], sort_keys=True))
+            print('   diff:', compare(w, st, st['exp'], obs))
+    run_world(LAYOUTS[d['layout']], driver, repairs=d.get('repairs', ()))
+    return 0
